@@ -655,13 +655,34 @@ def correction_cases(ctx, d, photo):
         yy, xx = rnd.randrange(0, 270), rnd.randrange(0, 270)
         samples.append((slice(yy, yy + 20), slice(xx, xx + 20)))
 
+    # every option of setup() takes default and NON-default values (OPTIONS below names them; a new option is reported)
+    if rnd.random() < 0.15:
+        cs = "gray"
+    ikw = dict(ref_sample=rnd.randrange(len(samples)), colorspace=cs, interpolation=rnd.choice(["quartic", "quartic", "rbf", "illumination"]))
+    if rnd.random() < 0.5:
+        ikw["rescale"] = True
+    filt = rnd.choice([None, None, "gauss", "half"])
+    if rnd.random() < 0.3:
+        mk_ = np.ones(small.shape[:2], dtype=bool)
+        mk_[: rnd.randint(1, 40), :] = False
+        ikw["mask"] = mk_
+    n_base = 1  # a LIST of base images makes setup() raise on main for every colorspace (broadcast error): not a persistence matter
+
     def mk_ill():
         il = d.IlluminationCorrection()
-        il.setup(base=d.OpticalImage(small, color_space="RGB", dimensions=[1.0, 1.0]), samples=samples, ref_sample=rnd.randrange(len(samples)),
-                 colorspace=cs, interpolation=rnd.choice(["quartic", "quartic", "rbf"]))
+        kw = dict(ikw)
+        if filt == "gauss":
+            kw["filter"] = lambda x: cv2.GaussianBlur(x, (0, 0), 1.5)
+        elif filt == "half":
+            kw["filter"] = lambda x: 0.5 * x + 0.1
+        b0 = d.OpticalImage(small, color_space="RGB", dimensions=[1.0, 1.0])
+        base_ = b0 if n_base == 1 else [b0, d.OpticalImage(np.ascontiguousarray(small[::-1]), color_space="RGB", dimensions=[1.0, 1.0])]
+        il.setup(base=base_, samples=samples, **kw)
         return il
 
-    out.append(("IlluminationCorrection", mk_ill, small.astype(np.float64) / 255.0, dict(colorspace=cs, samples=len(samples))))
+    out.append(("IlluminationCorrection", mk_ill, small.astype(np.float64) / 255.0,
+                dict(setup={k: (v if not isinstance(v, np.ndarray) else f"mask with {int((~v).sum())} pixels off") for k, v in ikw.items()},
+                     filter=filt, bases=n_base, samples=len(samples))))
     # ColorCorrection on a SYNTHETIC colour checker (4 x 6 swatches at the positions the extraction samples), embedded in a
     # textured canvas; classic reference colours or custom ones taken from the base image; the probe carries a colour cast
     sw = r.randint(40, 230, size=(4, 6, 3))
@@ -698,9 +719,48 @@ def apply_corr(c, arr):
 
 SAVABLE = ["TypeCorrection", "DriftCorrection", "CurvatureCorrection", "IlluminationCorrection", "ColorCorrection"]
 
+# the constructor / setup parameters of the savable corrections and how correction_cases varies them (default AND non-default
+# values); a parameter of the implementation that is not listed here is reported (option_coverage): it would be an option
+# under which save -> read_correction -> apply is never exercised
+OPTIONS = {
+    "TypeCorrection": {"data_type": "float / float32 / float64 / uint8 / uint16 / bool / int"},
+    "DriftCorrection": {"base": "crop of the photograph", "config": "padding, active, roi (voxels / slices / none)"},
+    "CurvatureCorrection": {"config": "init / crop / bulge / stretch present or absent", "kwargs": "interpolation_order 0..3, resize_factor"},
+    "IlluminationCorrection": {"args": "(none accepted)", "kwargs": "(none accepted)", "base": "one image (a list of images makes setup() itself raise on main: no correction to save)", "samples": "6-9 random patches",
+                               "mask": "none / rows switched off", "ref_sample": "random index", "filter": "identity / gaussian / affine",
+                               "colorspace": "rgb, rgb-scalar, lab, lab-scalar, hsl, hsl-scalar, gray", "interpolation": "quartic / rbf / illumination",
+                               "rescale": "False / True", "show_plot": "EXCLUDED: opens a matplotlib window, no effect on the state"},
+    "ColorCorrection": {"base": "none (classic reference) / custom image", "config": "roi, balancing, whitebalancing, colorbalancing, clip, active"},
+}
+
+
+def option_coverage(ctx, d):
+    """G1: parameters of __init__ / setup of every savable correction (inspect.signature) against OPTIONS"""
+    seen = {}
+    for name in SAVABLE:
+        cls = getattr(d, name, None)
+        params = []
+        for fn in ("__init__", "setup"):
+            f = getattr(cls, fn, None)
+            if f is None:
+                continue
+            sig = call(lambda: inspect.signature(f))
+            if isinstance(sig, Raised):
+                ctx.mark("TIE-BROKEN", {"G1": f"signature of {name}.{fn} not readable", "error": repr(sig.exc)})
+                continue
+            params += [p for p in sig.parameters if p != "self"]
+        seen[name] = params
+        missing = [p for p in params if p not in OPTIONS.get(name, {})]
+        if missing:
+            ctx.mark("ORACLE-VACUOUS", {"correction": name, "options_never_exercised": missing,
+                                        "meaning": "save -> read_correction -> apply is not exercised under these constructor / setup options"})
+    ctx.cov["correction_options"] = {n: {p: OPTIONS.get(n, {}).get(p, "NOT EXERCISED") for p in ps} for n, ps in seen.items()}
+
 
 def oracle_corrections(ctx, d, tmp, table=None):
     import cv2
+
+    option_coverage(ctx, d)
 
     photo_path = Path(inspect.getfile(d)).resolve().parents[2] / "examples" / "images" / "baseline.jpg"
     if photo_path.exists():
